@@ -519,7 +519,7 @@ class Bundle:
 
 def _typename_of(value):
     return value["__typename__"] if isinstance(value, dict) \
-        else value.__typename__
+        else value.__typename__  # (objects and mapping proxies)
 
 
 def _resolve_type_obj(value, ctx, info):
